@@ -17,7 +17,7 @@ ASSUMPTIONS = ["producer holds valid and the token (payload, param, first, last)
                "constructor parameters enumerated as in C03"]
 BOUNDS = {"quick": "stability: BMC K=16 from reset; progress: L-step from arbitrary state (L = 2..8 per element)",
           "thorough": "stability: BMC K=24 from reset; progress as quick over the whole catalogue; 2-3 element compositions"}
-OUTSIDE = "fairness between several sinks of a multiplexer; schedules longer than K for the stability obligation; progress of the packet.py elements (C16 witnesses only)"
+OUTSIDE = "fairness between several sinks of a multiplexer; schedules longer than K for the stability obligation; progress of the packet.py elements (C16 witnesses only); Packetizer stability for headers other than h1/8, h6/32, h3/16"
 
 
 def _build(name, K, which):
